@@ -334,7 +334,8 @@ def big_sets():
 def _worker(job, chk):
     si, prefix, pooling, tier = job
     servers = SERVER_SETS[si]
-    sets = [tuple(k for j, k in enumerate(UNIVERSE) if m >> j & 1) for m in range(256)]
+    uni = UNIVERSE if tier == "quick" else UNIVERSE + [b"bin\xff\x01", ("sk1", b"p9"), "k" * 200]
+    sets = [tuple(k for j, k in enumerate(uni) if m >> j & 1) for m in range(1 << len(uni))]
     sets += [tuple(b) for b in big_sets()]
     # an empty server key is a server key like any other
     sets += [(("", "p4"),), ((b"", b"p5"), "k1"), (("", "p4"), ("sk1", "p1"), (b"", b"p5"), "k2"), (("", "q1"), ("", "q2"), ("", b"q3"))]
